@@ -7,7 +7,7 @@ from props._design import *  # noqa: F401,F403
 from props import _design as D
 
 ID = "C04"
-PROP_FILES = ["Properties/C04.v", "Properties/C04_matrix.v", "Properties/C04_whole.v"]
+PROP_FILES = ["Properties/C04.v", "Properties/C04_matrix.v", "Properties/C04_whole.v", "Properties/C04_group_whole.v"]
 THEOREMS = ["C04_labelled_product", "C04_treatment_indicator", "C04_labels_columns_count"]
 ASSUMPTIONS = ["integer-valued numeric columns (products exact in float64)",
                "levels are str / Categorical / ordered Categorical / small integers via C()"]
